@@ -173,7 +173,41 @@ fn main() {
     // code under test failed outside a guarded call (for instance a constructor that must
     // succeed on a model-valid input did not).  On the unchanged tree this never happens; it is
     // reported as a violation with the panic message rather than as a machinery crash.
-    if let Err(e) = ev::guarded(run) {
+    // Watchdog: a call into the code under test that does not return is an observation (C15: "terminates"), not a
+    // reason to hang the check: after MC_WATCHDOG_SECS (default 120) inside one guarded call, report it with the case
+    // the thread was working on, write the evidence and stop.
+    let done = std::sync::atomic::AtomicBool::new(false);
+    let limit_ms: u64 = std::env::var("MC_WATCHDOG_SECS").ok().and_then(|v| v.parse().ok()).unwrap_or(120u64) * 1000;
+    let run_result = std::thread::scope(|sc| {
+        sc.spawn(|| {
+            while !done.load(std::sync::atomic::Ordering::Relaxed) {
+                std::thread::sleep(std::time::Duration::from_millis(500));
+                let now = ev::epoch().elapsed().as_millis() as u64 + 1;
+                for i in 0..ev::SLOTS {
+                    let st = ev::STARTED_MS[i].load(std::sync::atomic::Ordering::Relaxed);
+                    if st != 0 && now > st && now - st > limit_ms {
+                        let label = ev::slot_labels()[i].lock().map(|g| g.clone()).unwrap_or_default();
+                        ctx.violation(
+                            "engine.nontermination",
+                            &format!("a call into the code under test has not returned after {} s (it neither returned nor panicked)", limit_ms / 1000),
+                            json!({"kind": "nontermination", "last_case_of_thread": label}),
+                        );
+                        let j = ctx.to_json(config_json(), t0.elapsed().as_secs_f64());
+                        let s = serde_json::to_string_pretty(&j).unwrap();
+                        match &out {
+                            Some(p) => std::fs::write(p, s).unwrap(),
+                            None => println!("{}", s),
+                        }
+                        std::process::exit(0);
+                    }
+                }
+            }
+        });
+        let r = ev::guarded_unwatched(run);
+        done.store(true, std::sync::atomic::Ordering::Relaxed);
+        r
+    });
+    if let Err(e) = run_result {
         ctx.violation(
             "engine.assumption",
             &format!("an assumption of the explorer about the code under test failed: {}", e),
@@ -200,6 +234,8 @@ fn main() {
             ctx.bound("vector_kernel_monitors", serde_json::Value::Object(m));
         }
     });
+    ctx.bound("longest_single_call_ms", json!(ev::LONGEST_CALL_MS.load(std::sync::atomic::Ordering::Relaxed)));
+    ctx.bound("watchdog_limit_s", json!(limit_ms / 1000));
     let j = ctx.to_json(config_json(), t0.elapsed().as_secs_f64());
     let s = serde_json::to_string_pretty(&j).unwrap();
     match out {
